@@ -691,6 +691,10 @@ func (g *GcsEmu) finishUpload(ctx context.Context, baseUrl HttpBaseUrl, obj *sto
 	if err != nil {
 		return nil, fmt.Errorf("failed to get meta for %s/%s: %w", bucket, filename, err)
 	}
+	if meta == nil {
+		// deleted again (object or whole bucket) before we could read it back
+		return nil, fmtErrorfCode(http.StatusNotFound, "%s/%s not found", bucket, filename)
+	}
 	return meta, nil
 }
 
